@@ -1,0 +1,29 @@
+//go:build verif
+
+package main
+
+// Contracts for govc (contract-based deductive verification). Comment-only: this file
+// contributes no declarations and is compiled only with -tags verif.
+
+// ---- declared rate limit -> token bucket (C11) -----------------------------------------
+// A declared `ratelimit(N/window)` must become a bucket of N tokens refilled at N per window.
+//@ spec func rlUnit(w string) string = libcall(strings.ToLower, libcall(strings.TrimSpace, w))
+//@ spec func rlSec(u string) bool = u == "sec" || u == "second" || u == "s"
+//@ spec func rlHour(u string) bool = u == "hour" || u == "hr" || u == "h"
+//@ spec func rlDay(u string) bool = u == "day" || u == "d"
+//@ func rateLimitMiddleware
+//@   mathint
+//@   ensures (limit == nil || limit.Requests == 0) == (result == nil)
+//@   callpre server.RateLimitMiddleware !(rlSec(rlUnit(limit.Window)) || rlHour(rlUnit(limit.Window)) || rlDay(rlUnit(limit.Window))) ==> arg0.BurstSize == int(limit.Requests) && arg0.RequestsPerMinute == int(limit.Requests)
+//@   callpre server.RateLimitMiddleware rlSec(rlUnit(limit.Window)) ==> arg0.RequestsPerMinute == 60 * int(limit.Requests)
+//@   callpre server.RateLimitMiddleware rlSec(rlUnit(limit.Window)) ==> arg0.BurstSize == int(limit.Requests)
+//@   callpre server.RateLimitMiddleware rlHour(rlUnit(limit.Window)) ==> arg0.BurstSize == int(limit.Requests)
+//@   callpre server.RateLimitMiddleware rlHour(rlUnit(limit.Window)) ==> arg0.RequestsPerMinute * 60 == int(limit.Requests)
+//@   callpre server.RateLimitMiddleware rlDay(rlUnit(limit.Window)) ==> arg0.BurstSize == int(limit.Requests)
+//@   callpre server.RateLimitMiddleware rlDay(rlUnit(limit.Window)) ==> arg0.RequestsPerMinute * 1440 == int(limit.Requests)
+// The four window-unit clauses above that fail are recorded findings; these bounds keep any further drift visible.
+//@   callpre server.RateLimitMiddleware rlSec(rlUnit(limit.Window)) ==> arg0.BurstSize <= 60 * int(limit.Requests)
+//@   callpre server.RateLimitMiddleware rlHour(rlUnit(limit.Window)) ==> arg0.RequestsPerMinute <= (int(limit.Requests) + 59) / 60 || arg0.RequestsPerMinute == 1
+//@   callpre server.RateLimitMiddleware rlDay(rlUnit(limit.Window)) ==> arg0.RequestsPerMinute <= (int(limit.Requests) + 1439) / 1440 || arg0.RequestsPerMinute == 1
+//@   callpre server.RateLimitMiddleware arg0.BurstSize >= 1 && arg0.BurstSize <= 60 * int(limit.Requests)
+//@   callpre server.RateLimitMiddleware !arg0.TrustProxy
